@@ -93,6 +93,15 @@ CHECKS = [
              'norm/Schmidt values/entropies equal numpy svd. Binding truncate_ on states in the opposite canonical form: returned weight equals '
              'the true relative error, factor equals kept norm, state equals a sequential largest-weight dense truncation (no-tie cases).',
      'note': 'trusted: NumPy contraction of site tensors; the C13 reference selection for the dense truncation; scalar limits only in the truncation part'},
+    {'id': 'C09',
+     'technique': 'Hypothesis-generated Hamiltonians, initial states and sweep schedules; DMRG output compared after every sweep with a dense Jordan-Wigner Hamiltonian and its sector spectrum',
+     'text': 'Random Hermitian Hamiltonians (hopping incl. complex, densities, interactions, fields) for every family x symmetry, N=2..6, single MPO '
+             'or sum of 2-3 MPOs, precompute on/off, random starts of every admissible charge and D, 1site/2site schedules switched through '
+             'yastn.Method, default and explicit eigensolver options, binding and non-binding truncation: after each sweep norm 1, canonical, in sector, '
+             'energy == <psi|H|psi> (dense), E >= lambda_min(sector), no increase without binding truncation, Heff1/Heff2 identical between H forms. '
+             'Full-rank runs to convergence: eigen-residual, E in spectrum; projected runs orthogonal, E >= next level and in spectrum.',
+     'note': 'trusted: dense H from vlib/jw.py, numpy eigvalsh; eigenstate clauses only for runs reporting convergence and gaps >= 1e-3; reaching exactly '
+             'the next level under projection is labelled, not required (1-site sweeps may stall on a higher eigenstate)'},
     {'id': 'C13',
      'technique': 'Hypothesis-generated spectra and limit combinations checked with a validity predicate derived from the documented two-stage rule; error identity on generated factorisations',
      'text': 'Diagonal spectra with ties, zeros, one-element sectors over 1-5 sectors and every combination of D_total, D_block (scalar/dict), '
